@@ -411,15 +411,17 @@ type path struct {
 	errCount  int
 	spec      int // >0 while speculating a pure arm (diamond merging)
 
-	world     *threadWorld       // C20 environment (threads.go)
-	loadPlan  *loadPlan          // C17 environment (threads.go)
-	ast       *astLink           // imported syntax trees (astimport.go)
-	execInit  map[*execUnit]bool // executed generated packages whose initialiser ran (exec.go)
-	randCount int
-	syncMaps  map[*value]*smap  // sync.Map states (threads.go)
-	jdocs     map[*value]*jnode // documents rendered by the encoding/json model (jsonmodel.go)
-	curFr     *frame
-	curIn     ssa.Instruction
+	world        *threadWorld       // C20 environment (threads.go)
+	loadPlan     *loadPlan          // C17 environment (threads.go)
+	ast          *astLink           // imported syntax trees (astimport.go)
+	execInit     map[*execUnit]bool // executed generated packages whose initialiser ran (exec.go)
+	randCount    int
+	randConcrete bool              // every draw follows the concrete stream (vfRandConcrete)
+	stepLimit    int               // >0 inside vfTerminates: instruction count beyond which the code is taken not to end
+	syncMaps     map[*value]*smap  // sync.Map states (threads.go)
+	jdocs        map[*value]*jnode // documents rendered by the encoding/json model (jsonmodel.go)
+	curFr        *frame
+	curIn        ssa.Instruction
 
 	intRanges  map[*Term][2]int64
 	decided    map[*Term]bool
